@@ -101,6 +101,15 @@ Definition cmp_holdsZ (c : cmp) (a b : Z) : bool :=
 Definition refused (c : option cmp) (a b : nat) : bool := match c with Some c => cmp_holds c a b | None => false end.
 Definition refusedZ (c : option cmp) (a b : Z) : bool := match c with Some c => cmp_holdsZ c a b | None => false end.
 
+(* if a OP <constant>: raise ...   (None: no such test) *)
+Definition refused_low (c : option (cmp * nat)) (a : nat) : bool :=
+  match c with Some (c, k) => cmp_holds c a k | None => false end.
+Definition refused_lowZ (c : option (cmp * nat)) (a : Z) : bool :=
+  match c with Some (c, k) => cmp_holdsZ c a (Z.of_nat k) | None => false end.
+
+(* is the exception among those an  except (...)  clause names *)
+Definition caught (es : list exn) (e : exn) : bool := existsb (exn_eqb e) es.
+
 (* what the aggregate of an EMPTY sequence is: sum(()) = 0, max(()) / min(()) raise ValueError, ()[0] IndexError *)
 Definition agg_empty (g : agg) : res nat :=
   match g with
